@@ -101,6 +101,16 @@ theorem tdSeq_cons (f : Nat) (P : Prog) (s : St) (o : Op) (os : List Op) :
     tdSeq f P (some s) (o :: os) = tdSeq f P (tdQuiet f P s o) os := by
   simp [tdSeq]
 
+/-- prologue of a direct slot invocation `callS i`: one more invocation of the variable in progress -/
+def callPro (s : St) (i : Nat) (v : SlotVar) : St :=
+  { s with S := aset s.S i { v with incall := v.incall + 1 } }
+
+/-- epilogue of `callS i` -/
+def callEpi (s : St) (i : Nat) : St :=
+  match aget s.S i with
+  | some v2 => { s with S := aset s.S i { v2 with incall := v2.incall - 1 } }
+  | none => s.fail "callS: slot variable destroyed during its own call"
+
 theorem collectN_preserved {I : St → Prop} (hstep : ∀ s s', I s → collectStep s = some s' → I s') :
     ∀ n s, I s → I (collectN n s) := by
   intro n
@@ -125,8 +135,8 @@ structure StableK {κ : Type} (I : κ → St → Prop) : Prop where
   fail : ∀ k s m, I k s → I k (s.fail m)
   depth : ∀ k (s : St) d, I k s → I k { s with depth := d }
   steps : ∀ k (s : St) n, I k s → I k { s with steps := n }
-  incall : ∀ k (s : St) i (v : SlotVar) n, I k s → aget s.S i = some v →
-    I k { s with S := aset s.S i { v with incall := n } }
+  call : ∀ k (s : St) i (v : SlotVar), I k s → aget s.S i = some v →
+    ∃ k', I k' (callPro s i v) ∧ ∀ s2, I k' s2 → I k (callEpi s2 i)
   simple : ∀ k s op s' r, I k s → stepSimple s op = some (s', r) → I k s'
   collect : ∀ k s, I k s → I k (collect s)
   emit : ∀ k s i im, I k s → aget s.impls i = some im →
@@ -415,13 +425,9 @@ theorem execOp_step (hS : StableK I) {f : Nat} (ih : PresAll I f) :
       split at h
       · cases h
       · rename_i s1 o r1 heq
-        have h1 : I k s1 := ihInvoke _ _ _ _ _ _ (hS.incall _ _ _ _ _ hI hv) heq
-        have h2 : I k (match aget s1.S ci with
-            | some v2 => { s1 with S := aset s1.S ci { v2 with incall := v2.incall - 1 } }
-            | none => s1.fail "callS: slot variable destroyed during its own call") := by
-          split
-          · rename_i hv2; exact hS.incall _ _ _ _ _ h1 hv2
-          · exact hS.fail _ _ _ h1
+        obtain ⟨k', hpro, hepi⟩ := hS.call k s ci v hI hv
+        have h1 : I k' s1 := ihInvoke _ _ _ _ _ _ hpro heq
+        have h2 : I k (callEpi s1 ci) := hepi s1 h1
         split at h <;> (cases h; exact h2)
     · cases h; exact hI
   · -- emit
@@ -611,7 +617,11 @@ theorem Stable.toK {I : St → Prop} (h : Stable I) : StableK (fun (_ : Unit) =>
   fail _ s m hI := h.fail s m trivial hI
   depth _ s d hI := h.depth s d trivial hI
   steps _ s n hI := h.steps s n trivial hI
-  incall _ s i v n hI hv := h.incall s i v n trivial hI hv
+  call _ s i v hI hv := ⟨(), h.incall s i v _ trivial hI hv, fun s2 h2 => by
+    unfold callEpi
+    split
+    · rename_i hv2; exact h.incall s2 i _ _ trivial h2 hv2
+    · exact h.fail _ _ trivial h2⟩
   simple _ s op s' r hI hs := h.simple s op s' r trivial hI hs
   collect _ s hI := h.collect s trivial hI
   emit _ s i im hI hi := ⟨(), h.pro s i im trivial hI hi, fun s2 h2 => h.emitEpi s2 i s.next h2⟩
@@ -623,8 +633,8 @@ structure StableKRel {κ : Type} (J : St → Prop) (I : κ → St → Prop) : Pr
   fail : ∀ k s m, J s → I k s → I k (s.fail m)
   depth : ∀ k (s : St) d, J s → I k s → I k { s with depth := d }
   steps : ∀ k (s : St) n, J s → I k s → I k { s with steps := n }
-  incall : ∀ k (s : St) i (v : SlotVar) n, J s → I k s → aget s.S i = some v →
-    I k { s with S := aset s.S i { v with incall := n } }
+  call : ∀ k (s : St) i (v : SlotVar), J s → I k s → aget s.S i = some v →
+    ∃ k', I k' (callPro s i v) ∧ ∀ s2, J s2 → I k' s2 → I k (callEpi s2 i)
   simple : ∀ k s op s' r, J s → I k s → stepSimple s op = some (s', r) → I k s'
   collect : ∀ k s, J s → I k s → I k (collect s)
   emit : ∀ k s i im, J s → I k s → aget s.impls i = some im →
@@ -637,7 +647,13 @@ theorem StableKRel.and {κ : Type} {J : St → Prop} {I : κ → St → Prop} (h
   fail k s m h := ⟨hJ.fail s m trivial h.1, hI.fail k s m h.1 h.2⟩
   depth k s d h := ⟨hJ.depth s d trivial h.1, hI.depth k s d h.1 h.2⟩
   steps k s n h := ⟨hJ.steps s n trivial h.1, hI.steps k s n h.1 h.2⟩
-  incall k s i v n h hv := ⟨hJ.incall s i v n trivial h.1 hv, hI.incall k s i v n h.1 h.2 hv⟩
+  call k s i v h hv := by
+    obtain ⟨k', hp, he⟩ := hI.call k s i v h.1 h.2 hv
+    refine ⟨k', ⟨hJ.incall s i v _ trivial h.1 hv, hp⟩, fun s2 h2 => ⟨?_, he s2 h2.1 h2.2⟩⟩
+    unfold callEpi
+    split
+    · rename_i hv2; exact hJ.incall s2 i _ _ trivial h2.1 hv2
+    · exact hJ.fail _ _ trivial h2.1
   simple k s op s' r h hs := ⟨hJ.simple s op s' r trivial h.1 hs, hI.simple k s op s' r h.1 h.2 hs⟩
   collect k s h := ⟨hJ.collect s trivial h.1, hI.collect k s h.1 h.2⟩
   emit k s i im h hi := by
